@@ -669,14 +669,14 @@ def _removal(ctx, master):
             graph = None
             for sub in K.walk_no_nested(f.node):
                 if isinstance(sub, ast.Call) and K.is_meth(sub, 'delete') \
-                        and sub.args and 'path.scheduled(' in N.txt(
-                            sub.args[0]):
+                        and sub.args and 'path.scheduled(' in K.rtxt(
+                            f, sub.args[0]):
                     graph = graph or ctx.cfg(f)
                     site = [x for x in graph.nodes if any(
                         c is sub for c in C.node_calls(x))][0]
-                    ok = K.guarded_by(graph, site, lambda e: any(
+                    ok = K.guarded_by(graph, site, lambda e, f=f: any(
                         K.is_meth(c, 'put') and c.args and
-                        'path.finished(' in N.txt(c.args[0])
+                        'path.finished(' in K.rtxt(f, c.args[0])
                         for c in C.node_calls(e.src)))
                     ctx.ob('C09.5', f, site, ok,
                            '/finished is written before /scheduled is '
